@@ -425,5 +425,7 @@ def run(chk, ctx):
     from . import round3
     round3.start_resets_record(chk, ctx)       # a name started again is described with the new run's input/startDate
     round3.validator_stateless(chk, ctx)       # Create/Update answers do not depend on earlier requests
+    from . import round4
+    round4.frontends_read_alike(chk, ctx)
     chk.assume("request values are JSON values; Flask/Quart deliver the body as bytes; jsonify succeeds for JSON-serialisable records")
     chk.assume("kind lattice folds 0 and 0.0 into int/float (treated as possibly falsy)")
